@@ -288,7 +288,7 @@ func (m *Model) sortedTokens() []string {
 	return out
 }
 
-func isESDTSC(a []byte) bool { return bytes.Equal(a, vmcommon.ESDTSCAddress) }
+func isESDTSC(a []byte) bool { return bytes.Equal(a, refESDTSC) }
 
 // pendingMsgs lists undelivered messages in id order.
 func (m *Model) pendingMsgs() []*Msg {
